@@ -17,6 +17,8 @@ RULE = (
     '  Added markers: duplicated index labels, nullable Float64 / Int64 / Int32 / UInt8 / Int16 columns (pd.NA), '
     'ordered categoricals with unobserved categories, 300-row frames with one incomplete row; formulas that '
     'add and subtract a term; histories of an unrelated design before the case. '
+    'Later: 1500-row frames with the incomplete row near the end, a frame holding exactly the used columns '
+    '(never touched). '
 )
 ASSUMPTIONS = ["the set of used variables per formula is written down by hand in the check (not computed from the library)",
                "'pass' is only checked for plain numeric variables and pointwise calls"]
